@@ -212,11 +212,9 @@ impl RtWorld {
         }
         let (fg, _) = self.frontier;
         // candidates g = dir - v0 (mod 999), newest first
+        // the largest generation congruent to (dir - v0) modulo 999 that is not beyond the frontier
         let base = (dir as i64 - self.v0 as i64).rem_euclid(999);
-        let mut g = base;
-        while g > fg {
-            g -= 999;
-        }
+        let g = base + (fg - base).div_euclid(999) * 999;
         // g <= frontier generation. A generation exists if it was part of the initial population
         // (g >= -older) and has not been expired by the bucket's lifecycle: the directory that the
         // *next* volume will reuse (generation fg - 998) is already empty.
